@@ -279,7 +279,7 @@ func SegOf(t *rapid.T, n int, sofar int, kinds []string) Seg {
 	case "random":
 		s.Seed = rapid.Uint64().Draw(t, "seed")
 		if rapid.IntRange(0, 3).Draw(t, "nearinc") == 0 {
-			s.K = rapid.SampledFrom([]int{128, 200, 220, 226, 230, 234, 240, 248, 252, 255}).Draw(t, "alphabet")
+			s.K = rapid.SampledFrom([]int{128, 200, 216, 224, 228, 232, 234, 236, 238, 240, 242, 244, 248, 252, 255}).Draw(t, "alphabet")
 		}
 	case "text":
 		s.Seed = rapid.Uint64().Draw(t, "seed")
